@@ -19,6 +19,9 @@ import (
 
 var services = []string{"a", "b", "c"}
 
+// extended: menu items added after the first pass; the quick tier admits at most one of them in a set of maximal size
+var extended = map[string]bool{}
+
 // menu of entries over the three services
 func menu() []cmdlib.CE {
 	var m []cmdlib.CE
@@ -38,6 +41,17 @@ func menu() []cmdlib.CE {
 		o := others(s)
 		m = append(m, cmdlib.Splitter(s, cmdlib.Leg{Service: o[0], Weight: 60}, cmdlib.Leg{Service: o[1], Weight: 40}))
 		m = append(m, cmdlib.Router(s, cmdlib.Route{PathPrefix: "/x", Service: o[0], Subset: "v1"}))
+		// a leg to a service that has no entries of its own (keeps diamonds acyclic), a router that reaches
+		// both other services, and targets-form failover with a cluster-peer target in front of a local one
+		ext := []cmdlib.CE{
+			cmdlib.Splitter(s, cmdlib.Leg{Service: s, Weight: 50}, cmdlib.Leg{Service: "d", Weight: 50}),
+			cmdlib.Router(s, cmdlib.Route{PathPrefix: "/p", Service: o[0]}, cmdlib.Route{PathPrefix: "/q", Service: o[1]}),
+			cmdlib.Resolver(s, cmdlib.ResolverOpt{FailoverTargets: []string{"peer:cluster-02", o[0]}}),
+		}
+		for _, e := range ext {
+			extended[e.Label] = true
+		}
+		m = append(m, ext...)
 	}
 	return m
 }
@@ -85,6 +99,17 @@ func cases(quick bool) []tcase {
 			}
 			if dup {
 				continue
+			}
+			if quick && len(cur) == maxK-1 && extended[m[i].Label] {
+				n := 0
+				for _, j := range cur {
+					if extended[m[j].Label] {
+						n++
+					}
+				}
+				if n > 0 {
+					continue
+				}
 			}
 			// keep the size-maxK layer affordable: the last element must be a router/splitter/resolver
 			if len(cur) == maxK-1 && quick {
@@ -331,6 +356,23 @@ func checkChains(w *guard.W, wd *world.World, after string, order []string) stri
 		}
 		if e := closure(ch); e != "" && w != nil {
 			w.Violate("C15:compiled-graph-not-closed:store", fmt.Sprintf("after %s the chain of %q compiled but %s\norder: %v", after, svc, e, order), map[string]any{"ops": wd.Hist})
+		}
+		// The store loads only the entries it considers related to the chain. Compiling over every stored
+		// entry must give the same chain: an entry the selection misses is one that write-time validation
+		// and every later compilation silently ignore.
+		if w != nil {
+			_, all, aerr := wd.Store().ConfigEntries(nil, structs.WildcardEnterpriseMetaInDefaultPartition())
+			if aerr == nil {
+				full := configentry.NewDiscoveryChainSet()
+				full.AddEntries(all...)
+				fch, ferr := discoverychain.Compile(withEntries(compileReq(svc, ""), full))
+				switch {
+				case ferr != nil:
+					w.Violate("C15:stored-entries-do-not-compile-although-the-store-says-so", fmt.Sprintf("after the accepted %s the chain of %q compiles over the entries the store selects but not over all stored entries: %v\norder: %v", after, svc, ferr, order), map[string]any{"ops": wd.Hist})
+				case dump.Value(fch, chainDump) != dump.Value(ch, chainDump):
+					w.Violate("C15:chain-differs-between-selected-and-all-entries", fmt.Sprintf("after %s the chain of %q differs when compiled over all stored entries\norder: %v", after, svc, order), map[string]any{"ops": wd.Hist})
+				}
+			}
 		}
 		sb.WriteString(svc + ":" + dump.Value(ch, chainDump) + "\n")
 	}
